@@ -83,6 +83,7 @@ P = {
 GUARDS = {
  "C13": "the places where the configuration document gets its canonical order (input types, component connections, aliases), default-connection resolution, and when a loaded document's recorded hash is challenged",
  "C16": "ItemList.numbers (alternate-vocabulary path, computing the own numbers, the KeyError test) and of the copy constructor (which of the identifiers, numbers and cached ranks copied from the source an override makes stale)",
+ "C15": "ItemList.__getstate__ / __setstate__ (what goes into the pickled state: stored identifiers / numbers, else resolved through the vocabulary, else left out)",
  "C14": "the copy depth at PipelineBuilder.from_pipeline / build_config and DatasetBuilder.__init__ / build_container",
  "C05": "the path selection of sample_records and sample_users (fall-back calls with their arguments)", "C06": "RankingMetricBase.truncate, Recall's denominator and nDCG's ideal length",
  "C01": "MatrixRelationshipSet.row_items", "C02": "fallback_on_none (use_first_of) and the runner (status dispatch, answer to a request of a finished node, missing / ill-typed inputs, required-ness of dependencies, bail-out, deferred type test)", "C03": "TopNRanker.__call__ and UserTrainingHistoryLookup.__call__",
